@@ -217,6 +217,7 @@ func (c *wsConn) enqueue(f func()) {
 func (c *wsConn) Send(data []byte) {
 	if c.ws != nil {
 		c.Tracef("<<- %s", data)
+		verifFrameOut()
 		c.ws.WriteMessage(websocket.TextMessage, data)
 	}
 }
@@ -224,6 +225,7 @@ func (c *wsConn) Send(data []byte) {
 func (c *wsConn) Reply(data []byte) {
 	if c.ws != nil {
 		c.Tracef("<-- %s", data)
+		verifFrameOut()
 		c.ws.WriteMessage(websocket.TextMessage, data)
 	}
 }
